@@ -43,11 +43,11 @@ PLANS = {
     "quick": [P("greedy", full=1, stride=13), P("storage", full=0, stride=5), P("partition", full=0, stride=5),
               P("norules", full=0, stride=5), P("greedy", "contract", full=0, stride=5), P("encoding", full=0, stride=5),
               P("greedy", "contract", kind="prefix", nblocks=16)],
-    "thorough": [P("greedy", full=2, stride=13, extras=24), P("storage", full=2, stride=13), P("partition", full=1, stride=5),
-                 P("norules", full=1, stride=5), P("size", full=1, stride=13), P("greedy", "contract", full=1, stride=5),
-                 P("storage", "contract", full=1, stride=13), P("encoding", full=1, stride=13),
-                 P("greedy", "contract", kind="prefix", nblocks=150), P("storage", "contract", kind="prefix", nblocks=60),
-                 P("partition", "contract", kind="prefix", nblocks=60)],
+    "thorough": [P("greedy", full=2, stride=13, extras=12), P("storage", full=1, stride=5), P("partition", full=1, stride=5),
+                 P("norules", full=1, stride=13), P("size", full=0, stride=5), P("greedy", "contract", full=1, stride=13),
+                 P("storage", "contract", full=0, stride=5), P("encoding", full=1, stride=13),
+                 P("greedy", "contract", kind="prefix", nblocks=100), P("storage", "contract", kind="prefix", nblocks=40),
+                 P("partition", "contract", kind="prefix", nblocks=40)],
 }
 BATCH = 16
 CHUNK = 64
@@ -412,8 +412,9 @@ def run(tier):
                 "histories that contain the target itself are outside the quantifier (sequences of other blocks): counted as a diagnostic",
                 "a (target, component) whose fresh-process result is itself not reproducible is undecided here (it belongs to C13)",
                 "quick: -greedy: all histories of length <= 1 plus 1/13 of length 2; other option sets and contract mode: 1/5 of length 1; "
-                "16 blocks of a real contract each after its predecessors.  thorough: -greedy and -greedy -storage: all of length <= 2 plus "
-                "1/13 of length 3; others: all of length <= 1 plus samples of length 2; 24 real blocks as extra targets; 150/60/60 contract blocks",
+                "16 blocks of a real contract each after its predecessors.  thorough: -greedy: all of length <= 2 plus 1/13 of length 3 and "
+                "12 real blocks as extra targets; other option sets: all of length <= 1 plus 1/5 or 1/13 of length 2 (-size and -storage in "
+                "contract mode: 1/5 of length 1); 100/40/40 consecutive blocks of a real contract (the exact plans are listed under coverage.plans)",
                 "the SMT back-end is not run (no OptiMathSAT); the connector registry is reached only through the encoding files of -backend"]}
 
 
